@@ -527,12 +527,20 @@ func domain(cmd string, full, withBig bool) []valCase {
 			}
 		}
 		for _, n := range []int{0xfc, 0xfd, 0xffff, 0x10000} {
-			addBig("hashes", func() Rec { return Rec{"header": hdrDom[0], "total_transactions": uint64(n), "hashes": hashN(n), "flags": pattern(n/8+1, 0, 1)} }, false)
+			addBig("hashes", func() Rec {
+				return Rec{"header": hdrDom[0], "total_transactions": uint64(n), "hashes": hashN(n), "flags": pattern(n/8+1, 0, 1)}
+			}, false)
 		}
 		// maxTxPerBlock = 4000000/10+1 = 400001, maxFlagsPerMerkleBlock = 50000
-		addBig("hashes-max", func() Rec { return Rec{"header": hdrDom[0], "total_transactions": uint64(400001), "hashes": hashN(400001), "flags": pattern(50000, 0, 1)} }, false)
-		addBig("hashes-max+1", func() Rec { return Rec{"header": hdrDom[0], "total_transactions": uint64(400002), "hashes": hashN(400002), "flags": []byte{1}} }, true)
-		addBig("flags-max+1", func() Rec { return Rec{"header": hdrDom[0], "total_transactions": uint64(1), "hashes": hashN(1), "flags": pattern(50001, 0, 1)} }, true)
+		addBig("hashes-max", func() Rec {
+			return Rec{"header": hdrDom[0], "total_transactions": uint64(400001), "hashes": hashN(400001), "flags": pattern(50000, 0, 1)}
+		}, false)
+		addBig("hashes-max+1", func() Rec {
+			return Rec{"header": hdrDom[0], "total_transactions": uint64(400002), "hashes": hashN(400002), "flags": []byte{1}}
+		}, true)
+		addBig("flags-max+1", func() Rec {
+			return Rec{"header": hdrDom[0], "total_transactions": uint64(1), "hashes": hashN(1), "flags": pattern(50001, 0, 1)}
+		}, true)
 
 	case "reject":
 		cmds := [][]byte{nil, []byte("tx"), []byte("block"), []byte("version"), []byte("abcdefghijkl"), pattern(0xfd, 0x61, 0)}
@@ -551,12 +559,18 @@ func domain(cmd string, full, withBig bool) []valCase {
 			add("ccode", Rec{"message": []byte("tx"), "ccode": code, "reason": []byte("r"), "data": h1})
 		}
 		for _, n := range []int{0xffff, 0x10000} {
-			addBig("reason-len", func() Rec { return Rec{"message": []byte("block"), "ccode": uint64(1), "reason": pattern(n, 0, 1), "data": h1} }, false)
+			addBig("reason-len", func() Rec {
+				return Rec{"message": []byte("block"), "ccode": uint64(1), "reason": pattern(n, 0, 1), "data": h1}
+			}, false)
 			addBig("message-len", func() Rec { return Rec{"message": pattern(n, 0x61, 0), "ccode": uint64(1), "reason": nil, "data": h0} }, false)
 		}
 		// ReadVarString accepts up to MaxMessagePayload = 32 MiB
-		addBig("reason-len-max", func() Rec { return Rec{"message": []byte("x"), "ccode": uint64(1), "reason": make([]byte, 32<<20), "data": h0} }, false)
-		addBig("reason-len-max+1", func() Rec { return Rec{"message": []byte("x"), "ccode": uint64(1), "reason": make([]byte, 32<<20+1), "data": h0} }, true)
+		addBig("reason-len-max", func() Rec {
+			return Rec{"message": []byte("x"), "ccode": uint64(1), "reason": make([]byte, 32<<20), "data": h0}
+		}, false)
+		addBig("reason-len-max+1", func() Rec {
+			return Rec{"message": []byte("x"), "ccode": uint64(1), "reason": make([]byte, 32<<20+1), "data": h0}
+		}, true)
 
 	case "feefilter":
 		for _, v := range u64 {
@@ -597,7 +611,9 @@ func domain(cmd string, full, withBig bool) []valCase {
 		for _, n := range []int{0xffff, 0x10000, 256 * 1024} { // MaxCFilterDataSize = 256 KiB
 			addBig("len", func() Rec { return Rec{"filter_type": uint64(0), "block_hash": h1, "filter_bytes": pattern(n, 1, 1)} }, false)
 		}
-		addBig("len-max+1", func() Rec { return Rec{"filter_type": uint64(0), "block_hash": h1, "filter_bytes": pattern(256*1024+1, 1, 1)} }, true)
+		addBig("len-max+1", func() Rec {
+			return Rec{"filter_type": uint64(0), "block_hash": h1, "filter_bytes": pattern(256*1024+1, 1, 1)}
+		}, true)
 
 	case "cfheaders":
 		for _, ft := range []uint64{0, 0xff} {
@@ -610,9 +626,13 @@ func domain(cmd string, full, withBig bool) []valCase {
 			}
 		}
 		for _, n := range []int{0xfc, 0xfd, 2000} { // MaxCFHeadersPerMsg = 2000
-			addBig("count", func() Rec { return Rec{"filter_type": uint64(0), "stop_hash": h1, "previous_filter_header": h0, "filter_hashes": hashN(n)} }, false)
+			addBig("count", func() Rec {
+				return Rec{"filter_type": uint64(0), "stop_hash": h1, "previous_filter_header": h0, "filter_hashes": hashN(n)}
+			}, false)
 		}
-		addBig("count-max+1", func() Rec { return Rec{"filter_type": uint64(0), "stop_hash": h1, "previous_filter_header": h0, "filter_hashes": hashN(2001)} }, true)
+		addBig("count-max+1", func() Rec {
+			return Rec{"filter_type": uint64(0), "stop_hash": h1, "previous_filter_header": h0, "filter_hashes": hashN(2001)}
+		}, true)
 
 	case "cfcheckpt":
 		for _, ft := range []uint64{0, 0xff} {
